@@ -4,6 +4,7 @@ import (
 	"bytes"
 	"fmt"
 	"math/big"
+	"strings"
 
 	"github.com/libsv/go-bk/base58"
 	"github.com/libsv/go-bk/bec"
@@ -57,6 +58,30 @@ func genC13(e *emitter, r *rng, thorough bool) {
 			b = append(make([]byte, r.intn(6)), b...)
 		}
 		e.emit("enc.rand", "b58.enc "+hx(b))
+	}
+	// digit strings with INTERIOR runs of the zero digit '1' of every length 1..40 at every alignment 0..11 (grouped
+	// conversions — base 58^k chunks — lose or misplace an all-zero group), and the byte strings they denote
+	for m := 1; m <= 40; m++ {
+		for al := 0; al < 12; al++ {
+			if !thorough && (m+al)%3 != 0 && m != 10 && m != 20 {
+				continue
+			}
+			s := string(randB58(r, 1+r.intn(3))) + strings.Repeat("1", m) + string(randB58(r, al))
+			if s[0] == '1' {
+				s = "2" + s[1:]
+			}
+			e.emit("dec.interior-ones", "b58.dec "+hx([]byte(s)))
+			e.emit("enc.interior-ones", "b58.enc "+hx(base58.Decode(s)))
+		}
+	}
+	// powers of 58 and of 256 and their neighbours (a single non-zero digit / byte followed by zeros)
+	for k := 1; k <= 60; k++ {
+		for _, base := range []int64{58, 256} {
+			v := new(big.Int).Exp(big.NewInt(base), big.NewInt(int64(k)), nil)
+			for _, d := range []int64{-1, 0, 1} {
+				e.emit("enc.power", "b58.enc "+hx(new(big.Int).Add(v, big.NewInt(d)).Bytes()))
+			}
+		}
 	}
 	// long strings, many in a row (state kept between calls — power tables, scratch buffers — shows on the later ones),
 	// lengths around powers of two and every length 120..140
